@@ -47,41 +47,54 @@ Lemma NfInvM_stash c oi s g l :
   NfInvM c oi s g -> Forall (fun h => sh_reminder h = false) l -> NfInvM c oi (nf_set_stash s l) g.
 Proof. intros ((A & B & C & D & E) & M & T) F. split; [|split; assumption]. repeat split; auto; apply D; assumption. Qed.
 
+Lemma nf_count_problem_nonneg l : 0 <= nf_count_problem l.
+Proof. induction l as [|h r IH]; cbn [nf_count_problem]; [lia|]. destruct (nf_type_eqb (sh_type h) NfProblem); lia. Qed.
+
 Section Ops.
 Variables (c : nf_cfg) (oi : nf_opinfo).
 Let now := oi_now oi.
 Let x := oi_ctx oi.
 
-(* stashed notifications are only re-sent by a tick *)
+(* stashed notifications are only re-sent by a tick; the Problem entries account for at most as many Problem sends *)
 Lemma nf_unstash_ok l : forall s g s' evs,
   NfInvM c oi s g -> Forall (fun h => sh_reminder h = false) l ->
   (forall h, In h l -> sh_force h = true -> nf_mayforce oi (sh_type h) = true) ->
-  (oi_remposs oi = true -> forall h, In h l -> sh_type h <> NfProblem) ->
+  g_cnt g + nf_count_problem l <= oi_kp oi ->
   oi_tick oi = true -> oi_pdefer oi = true -> cx_glob_en x = true -> cx_ck_en x = true ->
   nf_unstash c now x l s = (s', evs) ->
   NfGood c oi g s' evs /\ nf_stash s' = nf_stash s /\
-  (oi_remposs oi = true -> sp_problem (nf_sup s') = true -> sp_problem (nf_sup s) = true).
+  g_cnt (nf_g_evs c oi g (nf_obs_evs evs)) <= g_cnt g + nf_count_problem l /\
+  (cx_per_closed x = false -> nf_sup s' = nf_sup s).
 Proof.
-  induction l as [|h r IH]; intros s g s' evs HI HF HL HN Ht Hd E1 E2 HU.
-  - inversion HU; subst. split; [apply nf_good_nil; assumption|split; [reflexivity|auto]].
+  induction l as [|h r IH]; intros s g s' evs HI HF HL HK Ht Hd E1 E2 HU.
+  - inversion HU; subst. split; [apply nf_good_nil; assumption|split; [reflexivity|split; [cbn; lia|auto]]].
   - cbn [nf_unstash] in HU.
     destruct (nf_begin c now x (sh_type h) (sh_force h) (sh_reminder h) s) as [s1 e] eqn:HB.
     destruct (nf_unstash c now x r s1) as [s2 evs2] eqn:HR.
     inversion HU; subst s' evs; clear HU.
     inversion HF as [|? ? Hh HFr]; subst.
+    cbn [nf_count_problem] in HK. pose proof (nf_count_problem_nonneg r) as Hnn.
     assert (NfSide c oi (sh_type h) (sh_force h) (sh_reminder h) s g) as HS.
     { split; [intro F; apply HL; [left; reflexivity|exact F]|]. split; [intros _; split; assumption|].
       split; [intro F; rewrite F in Ht; discriminate|]. split; [intros _ _; exact Hd|].
-      intros _ R Ep. exfalso. exact (HN R h (or_introl eq_refl) Ep). }
-    destruct (nf_begin_ok c oi _ _ _ s g s1 e HI HS HB) as (K1 & K2 & K3 & K4 & _).
+      intros _ Ep Hk. exfalso. rewrite Ep, nf_type_eqb_refl in HK. lia. }
+    destruct (nf_begin_ok c oi _ _ _ s g s1 e HI HS HB) as (K1 & K2 & K3 & _ & K5).
+    pose proof (nf_g_cnt_exec c oi g e) as (Kc1 & Kc2). cbv zeta in Kc1, Kc2. rewrite K5 in Kc2.
+    set (g1 := nf_g_evs c oi g (nf_obs_ev (NfEvExec e))) in *.
     assert (forall h', In h' r -> sh_force h' = true -> nf_mayforce oi (sh_type h') = true) as HL' by (intros; apply HL; [right|]; assumption).
-    assert (oi_remposs oi = true -> forall h', In h' r -> sh_type h' <> NfProblem) as HN' by (intros R h' Hi; apply (HN R); right; assumption).
-    destruct (IH s1 _ s2 evs2 K2 HFr HL' HN' Ht Hd E1 E2 HR) as (G2 & St2 & Sp2).
-    split; [|split; [rewrite St2; assumption|]].
+    assert (g_cnt g1 <= g_cnt g + (if nf_type_eqb (sh_type h) NfProblem then 1 else 0)) as Hc1.
+    { destruct (nf_type_eqb (sh_type h) NfProblem) eqn:Ep; [lia|].
+      rewrite Kc2; [lia|]. intro Q. rewrite Q in Ep. discriminate. }
+    assert (g_cnt g1 + nf_count_problem r <= oi_kp oi) as HK' by lia.
+    destruct (IH s1 g1 s2 evs2 K2 HFr HL' HK' Ht Hd E1 E2 HR) as (G2 & St2 & Cn2 & Sp2).
+    assert (nf_obs_evs (NfEvExec e :: evs2) = nf_obs_ev (NfEvExec e) ++ nf_obs_evs evs2) as Eo by reflexivity.
+    split; [|split; [rewrite St2; assumption|split]].
     + apply (nf_good_app c oi g s1 [NfEvExec e] s2 evs2).
       * apply nf_good_one; assumption.
-      * unfold nf_obs_evs. cbn [flat_map]. rewrite app_nil_r. exact G2.
-    + intros R P. apply K4; [exact (HN R h (or_introl eq_refl))|]. apply Sp2; assumption.
+      * unfold nf_obs_evs at 1. cbn [flat_map]. rewrite app_nil_r. exact G2.
+    + rewrite Eo, nf_g_evs_app. fold g1. cbn [nf_count_problem]. lia.
+    + intro Po. rewrite (Sp2 Po). pose proof (nf_begin_sup c now x (sh_type h) (sh_force h) (sh_reminder h) s Po) as Q.
+      rewrite HB in Q. exact Q.
 Qed.
 
 Lemma nf_fire_drop_problem tys : forall st sub,
@@ -93,17 +106,36 @@ Proof.
   - apply IH in H. assumption.
 Qed.
 
+Lemma nf_fire_drop_cons ty r st sub :
+  nf_fire_drop x (ty :: r) st sub =
+  if nf_supp_has st ty && negb (nf_reason_applies x ty)
+  then nf_fire_drop x r (nf_supp_minus st (nf_supp_ins nf_supp_none ty)) (nf_supp_ins sub ty)
+  else nf_fire_drop x r st sub.
+Proof. reflexivity. Qed.
+
+Lemma nf_fire_drop_applies st sub :
+  sp_problem (fst (nf_fire_drop x nf_fire_types st sub)) = true -> nf_reason_applies x NfProblem = true.
+Proof.
+  unfold nf_fire_types. rewrite nf_fire_drop_cons. intro H.
+  destruct (nf_supp_has st NfProblem && negb (nf_reason_applies x NfProblem)) eqn:Q.
+  - apply nf_fire_drop_problem in H. cbn in H. rewrite andb_false_r in H. discriminate.
+  - apply nf_fire_drop_problem in H. cbn [nf_supp_has] in Q. rewrite H in Q. cbn in Q.
+    apply negb_false_iff in Q. exact Q.
+Qed.
+
 Lemma nf_fire_loop_ok st tys : forall s sub g s' sub' evs,
-  NfInvM c oi s g -> (oi_remposs oi = true -> sp_problem st = false) ->
+  NfInvM c oi s g -> NoDup tys ->
+  (In NfProblem tys -> sp_problem st = true -> g_cnt g < oi_kp oi) ->
   oi_tick oi = true -> oi_pdefer oi = true -> cx_glob_en x = true -> cx_ck_en x = true ->
   nf_fire_loop c now x st tys s sub = (s', sub', evs) ->
   NfGood c oi g s' evs /\ nf_stash s' = nf_stash s.
 Proof.
-  induction tys as [|ty r IH]; intros s sub g s' sub' evs HI HP Ht Hd E1 E2 HF.
+  induction tys as [|ty r IH]; intros s sub g s' sub' evs HI HN HP Ht Hd E1 E2 HF.
   - inversion HF; subst. split; [apply nf_good_nil; assumption|reflexivity].
-  - cbn [nf_fire_loop] in HF.
+  - inversion HN as [|? ? Hni HNr]; subst. cbn [nf_fire_loop] in HF.
     destruct (negb (nf_supp_has st ty) || nf_reason_suppressed x ty) eqn:Sk.
-    + apply (IH _ _ _ _ _ _ HI HP Ht Hd E1 E2 HF).
+    + assert (In NfProblem r -> sp_problem st = true -> g_cnt g < oi_kp oi) as HPr by (intros Hi; apply HP; right; assumption).
+      exact (IH _ _ _ _ _ _ HI HNr HPr Ht Hd E1 E2 HF).
     + apply orb_false_iff in Sk. destruct Sk as [Sh _]. apply negb_false_iff in Sh.
       set (s1 := nf_set_sup s (nf_supp_minus (nf_sup s) (nf_supp_ins sub ty))) in *.
       destruct (nf_begin c now x ty false false s1) as [s2 e] eqn:HB.
@@ -113,9 +145,13 @@ Proof.
       assert (NfSide c oi ty false false s1 g) as HS.
       { split; [discriminate|]. split; [intros _; split; assumption|].
         split; [intro F; rewrite F in Ht; discriminate|]. split; [intros _ _; exact Hd|].
-        intros _ R Ep. exfalso. subst ty. cbn in Sh. rewrite (HP R) in Sh. discriminate. }
-      destruct (nf_begin_ok c oi _ _ _ s1 g s2 e HI1 HS HB) as (K1 & K2 & K3 & _ & _).
-      destruct (IH _ _ _ _ _ _ K2 HP Ht Hd E1 E2 HR) as [G3 St3].
+        intros _ Ep Hk. exfalso. subst ty. cbn in Sh. pose proof (HP (or_introl eq_refl) Sh). lia. }
+      destruct (nf_begin_ok c oi _ _ _ s1 g s2 e HI1 HS HB) as (K1 & K2 & K3 & _ & K5).
+      pose proof (nf_g_cnt_exec c oi g e) as (_ & Kc2). cbv zeta in Kc2. rewrite K5 in Kc2.
+      assert (In NfProblem r -> sp_problem st = true -> g_cnt (nf_g_evs c oi g (nf_obs_ev (NfEvExec e))) < oi_kp oi) as HP'.
+      { intros Hi Hs. assert (ty <> NfProblem) as Nq by (intro Q; apply Hni; rewrite Q; exact Hi).
+        rewrite (Kc2 Nq). apply HP; [right; assumption|assumption]. }
+      destruct (IH _ _ _ _ _ _ K2 HNr HP' Ht Hd E1 E2 HR) as [G3 St3].
       split; [|rewrite St3, K3; reflexivity].
       apply (nf_good_app c oi g s2 [NfEvExec e] s3 evs3).
       * apply nf_good_one; assumption.
@@ -123,7 +159,8 @@ Proof.
 Qed.
 
 Lemma nf_fire_ok s g s' evs :
-  NfInvM c oi s g -> (oi_remposs oi = true -> sp_problem (nf_sup s) = false) ->
+  NfInvM c oi s g ->
+  (cx_per_closed x = false -> sp_problem (nf_sup s) = true -> nf_reason_applies x NfProblem = true -> g_cnt g < oi_kp oi) ->
   oi_tick oi = true -> oi_pdefer oi = true -> cx_glob_en x = true -> cx_ck_en x = true ->
   nf_fire c now x s = (s', evs) ->
   NfGood c oi g s' evs /\ nf_stash s' = nf_stash s.
@@ -132,13 +169,18 @@ Proof.
   destruct (nf_supp_empty (nf_sup s)).
   { inversion HF; subst. split; [apply nf_good_nil; assumption|reflexivity]. }
   destruct (nf_fire_drop x nf_fire_types (nf_sup s) nf_supp_none) as [st sub] eqn:HD.
-  assert (oi_remposs oi = true -> sp_problem st = false) as HP'.
-  { intro R. destruct (sp_problem st) eqn:P; [|reflexivity].
-    pose proof (nf_fire_drop_problem nf_fire_types (nf_sup s) nf_supp_none) as Q. rewrite HD in Q. cbn [fst] in Q.
-    rewrite (Q P) in HP. apply HP. assumption. }
-  destruct (negb (nf_supp_empty st) && negb (cx_per_closed x) && negb (cx_soon x)).
-  - destruct (nf_fire_loop c now x st nf_fire_types s sub) as [[s1 sub1] evs1] eqn:HL.
-    destruct (nf_fire_loop_ok st nf_fire_types _ _ _ _ _ _ HI HP' Ht Hd E1 E2 HL) as [[G1 G2] St].
+  destruct (negb (nf_supp_empty st) && negb (cx_per_closed x) && negb (cx_soon x)) eqn:Cond.
+  - assert (cx_per_closed x = false) as Po.
+    { apply andb_true_iff in Cond. destruct Cond as [Cond _]. apply andb_true_iff in Cond. destruct Cond as [_ Cond].
+      apply negb_true_iff in Cond. exact Cond. }
+    assert (In NfProblem nf_fire_types -> sp_problem st = true -> g_cnt g < oi_kp oi) as HP'.
+    { intros _ P. apply HP; [exact Po| |].
+      - pose proof (nf_fire_drop_problem nf_fire_types (nf_sup s) nf_supp_none) as Q. rewrite HD in Q. exact (Q P).
+      - pose proof (nf_fire_drop_applies (nf_sup s) nf_supp_none) as Q. rewrite HD in Q. exact (Q P). }
+    assert (NoDup nf_fire_types) as ND.
+    { unfold nf_fire_types. repeat constructor; cbn; intuition discriminate. }
+    destruct (nf_fire_loop c now x st nf_fire_types s sub) as [[s1 sub1] evs1] eqn:HL.
+    destruct (nf_fire_loop_ok st nf_fire_types _ _ _ _ _ _ HI ND HP' Ht Hd E1 E2 HL) as [[G1 G2] St].
     inversion HF; subst s' evs; clear HF.
     destruct (nf_supp_empty sub1); [split; [split|]; assumption|].
     split; [split; [assumption|apply NfInvM_sup; assumption]|assumption].
@@ -211,13 +253,22 @@ Proof.
   apply in_map. apply filter_In. split; assumption.
 Qed.
 
+Lemma nf_count_problem_incl l1 l2 : l1 = l2 \/ l1 = [] -> nf_count_problem l1 <= nf_count_problem l2.
+Proof.
+  intros [H|H]; subst l1.
+  - lia.
+  - cbn [nf_count_problem]. apply nf_count_problem_nonneg.
+Qed.
+
 Lemma nf_tick_ok c s g now x s' evs :
   let oi := nf_opinfo_st s (NfTick now x) in
-  NfInvM c oi s g -> nf_tick c now x s = (s', evs) -> NfGood c oi g s' evs.
+  NfInvM c oi s g -> g_cnt g = 0 -> nf_tick c now x s = (s', evs) -> NfGood c oi g s' evs.
 Proof.
-  intros oi HI HT. unfold nf_tick, nf_tick_pre in HT.
+  intros oi HI Hc0 HT. unfold nf_tick, nf_tick_pre in HT.
   assert (oi_tick oi = true) as Ht by reflexivity.
   assert (oi_pdefer oi = true) as Hd by reflexivity.
+  assert (oi_kp oi = nf_count_problem (nf_stash s) +
+          (if sp_problem (nf_sup s) && nf_reason_applies x NfProblem then 1 else 0)) as Hkp by reflexivity.
   set (s1 := if cx_paused x && cx_auth x then match nf_stash s with _ :: _ => nf_set_stash s [] | [] => s end else s) in *.
   assert (NfInvM c oi s1 g) as HI1.
   { unfold s1. destruct (cx_paused x && cx_auth x); [|assumption].
@@ -243,18 +294,14 @@ Proof.
     { intros h Hi. destruct Hst as [Q|Q]; rewrite Q in Hi; [assumption|contradiction]. }
     assert (forall h, In h (nf_stash s1) -> sh_force h = true -> nf_mayforce oi (sh_type h) = true) as HL.
     { intros h Hi Hf. apply (nf_mayforce_stash (nf_stash s) now x h); [apply Sub|]; assumption. }
-    assert (oi_remposs oi = true -> forall h, In h (nf_stash s1) -> sh_type h <> NfProblem) as HN.
-    { intros R h Hi Ep. unfold oi, nf_opinfo_st, nf_opinfo_of in R. cbn [oi_remposs] in R.
-      apply andb_true_iff in R. destruct R as [R _]. apply negb_true_iff in R.
-      assert (existsb (fun h => nf_type_eqb (sh_type h) NfProblem) (nf_stash s) = true) as Q.
-      { apply existsb_exists. exists h. split; [apply Sub; assumption|rewrite Ep; reflexivity]. }
-      rewrite Q in R. discriminate. }
-    destruct (nf_unstash_ok c oi (nf_stash s1) _ g sa ea HI2 HFs HL HN Ht Hd E1 E2 HU) as ([Ga1 Ga2] & Sa & Spa).
-    assert (oi_remposs oi = true -> sp_problem (nf_sup sa) = false) as HP.
-    { intro R. destruct (sp_problem (nf_sup sa)) eqn:P; [|reflexivity].
-      pose proof (Spa R eq_refl) as Q. cbn [nf_sup nf_set_stash] in Q. rewrite Hsup in Q.
-      unfold oi, nf_opinfo_st, nf_opinfo_of in R. cbn [oi_remposs] in R.
-      apply andb_true_iff in R. destruct R as [_ R]. rewrite Q in R. discriminate. }
+    pose proof (nf_count_problem_incl _ _ Hst) as Hci.
+    assert (g_cnt g + nf_count_problem (nf_stash s1) <= oi_kp oi) as HK.
+    { rewrite Hkp, Hc0. destruct (sp_problem (nf_sup s) && nf_reason_applies x NfProblem); lia. }
+    destruct (nf_unstash_ok c oi (nf_stash s1) _ g sa ea HI2 HFs HL HK Ht Hd E1 E2 HU) as ([Ga1 Ga2] & Sa & Cna & Spa).
+    assert (cx_per_closed x = false -> sp_problem (nf_sup sa) = true -> nf_reason_applies x NfProblem = true ->
+            g_cnt (nf_g_evs c oi g (nf_obs_evs ea)) < oi_kp oi) as HP.
+    { intros Po P Ra. rewrite (Spa Po) in P. cbn [nf_sup nf_set_stash] in P. rewrite Hsup in P.
+      rewrite Hkp, P, Ra. cbn [andb]. lia. }
     destruct (nf_fire_ok c oi sa _ sb eb Ga2 HP Ht Hd E1 E2 HF) as [[Gb1 Gb2] Sb].
     destruct (nf_tick_rem_ok c oi sb _ s3 evs3 Gb2 Ht Hd E1 E2 HR) as [Gr Sr].
     apply (nf_good_app c oi g sb (ea ++ eb) s3 evs3).
@@ -306,7 +353,8 @@ Proof.
   intros oi HI HS. pose proof (nf_g_start_inv c oi s g HI) as HM.
   destruct o as [now x ty force|now x]; cbn [nf_step] in HS.
   - destruct (nf_request_ok c s _ now x ty force s' evs HM HS) as [A (B & _)]. split; assumption.
-  - destruct (nf_tick_ok c s _ now x s' evs HM HS) as [A (B & _)]. split; assumption.
+  - assert (g_cnt (nf_g_start c oi g) = 0) as Hc0 by (unfold nf_g_start; rewrite nf_g_cnt_mask; reflexivity).
+    destruct (nf_tick_ok c s _ now x s' evs HM Hc0 HS) as [A (B & _)]. split; assumption.
 Qed.
 
 Lemma nf_init_inv c : NfInv c nf_init nf_ghost0.
